@@ -6,6 +6,10 @@ mutual block of `parse_value` (fuel bounded by the weighted measure `cA`).
 namespace Octave
 namespace Parser
 
+-- the proofs below execute every path of large `do` blocks symbolically: 5× the default budget, so that no proof
+-- sits at the edge of the deterministic timeout
+set_option maxHeartbeats 1000000
+
 theorem takeValueToks_spec : ∀ {fuel : Nat} {acc : List Str} {r : List Token},
     (EofEnd r ∧ cB r < fuel) → wpr (takeValueToks fuel acc) r (fun _ r' => Le r r') := by
   intro fuel
